@@ -136,7 +136,22 @@ def coq_build(prop, log, tier):
             pass
     os.makedirs(os.path.join(BUILD, "ml", prop), exist_ok=True)
     budget = 3000 if tier == "thorough" else 1500
-    rc, out = sh(["timeout", str(budget), "make", "-k", "-j16"] + targets, cwd=COQ, timeout=budget + 30)
+    # two phases, so that the Print Assumptions output parsed below is that of this
+    # property's Props.v alone: (1) everything Props.v requires plus Extract.vo (an imported
+    # development's own Props.vo may be rebuilt here and prints its own blocks),
+    # (2) Props.vo by itself
+    deps = []
+    rc_p, out_p = sh(["coqdep", "-Q", ".", "DV", "%s/Props.v" % prop], cwd=COQ, timeout=120)
+    if rc_p == 0 and ":" in out_p:
+        deps = [w for w in out_p.split("\n")[0].split(":", 1)[1].split() if w.endswith(".vo")]
+    phase1 = [t for t in targets if not t.endswith("/Props.vo")] + deps
+    out1 = ""
+    rc1 = 0
+    if phase1:
+        rc1, out1 = sh(["timeout", str(budget), "make", "-k", "-j16"] + phase1, cwd=COQ, timeout=budget + 30)
+    rc2, out_props = sh(["timeout", str(budget), "make", "-k", "%s/Props.vo" % prop], cwd=COQ, timeout=budget + 30)
+    rc = rc1 or rc2
+    out = out1 + "\n" + out_props
     r["log"] = out
     log.append("[coq] make %s -> rc=%d" % (" ".join(targets), rc))
     for m in re.finditer(r'File "\./([^"]+)", line (\d+), characters [\d-]+:\n(Error[^\n]*(?:\n[^\n]+){0,6})', out):
@@ -153,7 +168,7 @@ def coq_build(prop, log, tier):
     if n_print != len(r["theorems"]):
         r["broken"].append("%s/Props.v: %d theorems but %d Print Assumptions" % (prop, len(r["theorems"]), n_print))
     # parse assumption blocks in order
-    blocks = re.findall(r"(Closed under the global context|Axioms:\n(?:.+\n?)+?(?=\n\S|\Z|COQC|make))", out)
+    blocks = re.findall(r"(Closed under the global context|Axioms:\n(?:.+\n?)+?(?=\n\S|\Z|COQC|make))", out_props)
     allow = load_allow()
     if os.path.exists(os.path.join(pdir, "Props.vo")):
         if len(blocks) != len(r["theorems"]):
